@@ -6,7 +6,12 @@ W=/tmp/reg/w$S
 [ -d $W ] || { mkdir -p /tmp/reg; git -C /repo worktree add -q --detach $W HEAD; }
 for id in "$@"; do
   d=/verif/seeded/$id
-  prop=$(python3 -c "import json;print(json.load(open('$d/meta.json'))['detected_by']['check'])")
+  prop=$(python3 -c "
+import json,re
+m=json.load(open('$d/meta.json')); d=m.get('detected_by')
+if isinstance(d,dict): print(d['check'])
+else:
+    x=re.search(r'check (C[0-9]+)', str(d)); print(x.group(1) if x else m['breaks_property'])")
   cd $W && git checkout -q -- . && git clean -fdq
   if ! git apply --check $d/patch.diff 2>/dev/null; then echo "$id $prop does-not-apply-to-HEAD" | tee -a /verif/out/regress.log; continue; fi
   git apply $d/patch.diff
